@@ -42,6 +42,14 @@ def main():
     res = [{'desc': None, 'bytes': []} for _ in progs]
     ctxlog = []
     goods = X.good()
+    # every process runs the scenarios in a different order (results are compared between processes): whatever a
+    # first use freezes in a process-wide cache shows up as a difference
+    order = int(pl.get('order', 0))
+    if order:
+        k_ = (order * 7) % len(goods)
+        goods = goods[k_:] + goods[:k_]
+        if order % 2:
+            goods = goods[::-1]
     xres = {name: [] for name, _ in goods}
     xfail_log = []
     args_before = X.shared_args_state()
@@ -81,6 +89,8 @@ def main():
             m.main._current_synthdef = None
 
     # (1) twice in a row
+    if order % 2:
+        build_extras()            # in every second process the Python-level definitions are the first ones written
     for i in range(len(progs)):
         res[i]['bytes'].append(build(i, True))
         res[i]['bytes'].append(build(i))
